@@ -38,7 +38,7 @@ T == [k |-> "table", name |-> "t"]
 DBof(rows) == [t |-> [w |-> 2, rows |-> rows]]
 DB == DBof(tb)
 QQ(keys, l, o) == [Sel(T, TT, <<Col(1), Col(2)>>) EXCEPT !.order = keys, !.limit = l, !.offset = o]
-Q == QQ(ks, lim, off)
+Qry == QQ(ks, lim, off)
 CS == <<"none", "none">>
 
 Init == tb \in TablesDom /\ ks = <<>> /\ lim = -1 /\ off = 0 /\ phase = 0
@@ -50,39 +50,40 @@ Next ==
   /\ off' \in Offs(lim')
   /\ UNCHANGED tb
 \* sampling variant for `-simulate` (one random table and one random query per behaviour)
-SInit == tb = RandomElement(TablesDom) /\ ks = <<>> /\ lim = -1 /\ off = 0 /\ phase = 0
+\* (the table is drawn in the step: the initial states of a simulation are computed once)
+SInit == tb = <<>> /\ ks = <<>> /\ lim = -1 /\ off = 0 /\ phase = 0
 SNext ==
   /\ phase = 0
   /\ phase' = 1
+  /\ tb' = RandomElement(TablesDom)
   /\ ks' = RandomElement(KeyLists)
   /\ lim' = RandomElement(Lims)
   /\ off' = RandomElement(Offs(lim'))
-  /\ UNCHANGED tb
 
-Res == Rows(Q, <<>>, DB)
+Res == Rows(Qry, <<>>, DB)
 RevTb == [i \in DOMAIN tb |-> tb[Len(tb) + 1 - i]]
 Swap(s, i) == [j \in DOMAIN s |-> IF j = i THEN s[i + 1] ELSE IF j = i + 1 THEN s[i] ELSE s[j]]
 Full == Rows(QQ(ks, -1, 0), <<>>, DB)
 
-SelfOK == ResultOK(Q, DB, Res) /\ Len(Res) = ExpectedLen(Q, Len(tb))
-TiesOpen == ResultOK(Q, DB, Rows(Q, <<>>, DBof(RevTb)))
+SelfOK == ResultOK(Qry, DB, Res) /\ Len(Res) = ExpectedLen(Qry, Len(tb))
+TiesOpen == ResultOK(Qry, DB, Rows(Qry, <<>>, DBof(RevTb)))
 NullsPlace ==
   (Len(ks) = 1 /\ lim < 0) =>
      \A a, b \in DOMAIN Res :
         (IsN(Res[a][ks[1].i]) /\ ~IsN(Res[b][ks[1].i])) => (IF ks[1].desc THEN a > b ELSE a < b)
 SwapRejected ==
   \A i \in 1..(Len(Res) - 1) :
-     RowLt(ks, CS, Res[i], Res[i + 1]) => ~ResultOK(Q, DB, Swap(Res, i))
+     RowLt(ks, CS, Res[i], Res[i + 1]) => ~ResultOK(Qry, DB, Swap(Res, i))
 DropRejected ==
-  /\ Len(Res) >= 1 => ~ResultOK(Q, DB, SubSeq(Res, 1, Len(Res) - 1))
+  /\ Len(Res) >= 1 => ~ResultOK(Qry, DB, SubSeq(Res, 1, Len(Res) - 1))
   /\ (lim >= 1 /\ Len(Full) > off + Len(Res) /\ Len(Res) >= 1
         /\ ~RowKeyEq(ks, CS, Full[off + 1], Full[off + Len(Res) + 1]))
-       => ~ResultOK(Q, DB, SubSeq(Full, off + 2, off + Len(Res) + 1))
+       => ~ResultOK(Qry, DB, SubSeq(Full, off + 2, off + Len(Res) + 1))
 
 Laws == phase = 1 => /\ SelfOK /\ TiesOpen /\ NullsPlace /\ SwapRejected /\ DropRejected
 
 \* ---- cases for the engine (binding A): the chosen slice, the unsliced order, the top-1 path and
 \* ---- the slice without OFFSET, over the chosen table
 Cases(keys, l, o) == << QQ(keys, l, o), QQ(keys, -1, 0), QQ(keys, 1, o), QQ(keys, IF l < 0 THEN 2 ELSE l, 0) >>
-Emit == PrintT("CASE " \o ToJson([tb |-> tb, qs |-> Cases(ks', lim', off')]))
+Emit == PrintT("CASE " \o ToJson([tb |-> tb', qs |-> Cases(ks', lim', off')]))
 =============================================================================
